@@ -1,6 +1,6 @@
 // C17: bcrypt hashes verify exactly the right passwords and interoperate.
 //
-// Grid A (generate): every password length 0..72 x last-byte alphabet {00,7F,80,FF,'a'} x
+// Grid A (generate): every password length 0..72 x 8 value classes (last byte 00,7F,80,FF,'a'; all FF; all NUL; printable) x
 //
 //	cost {4,5,6} (+ costs below MinCost -> DefaultCost, 7..9 once, > MaxCost -> error;
 //	lengths 73..80,100,1000 -> ErrPasswordTooLong): the hash string must equal the model's
@@ -107,11 +107,16 @@ var lastBytes = []byte{0x00, 0x7f, 0x80, 0xff, 'a'}
 
 func password(c *vf.Ctx, n, variant int) []byte {
 	var pw []byte
-	switch variant % 7 {
+	switch variant % 8 {
 	case 5:
 		pw = bytes.Repeat([]byte{0xff}, n)
 	case 6:
 		pw = make([]byte, n) // all NUL
+	case 7:
+		pw = c.Bytes("pw-ascii", n, n) // printable 7-bit, usable with crypt(3)
+		for i := range pw {
+			pw[i] = 0x21 + pw[i]%0x5e
+		}
 	default:
 		pw = c.Bytes("pw", n*16+variant, n)
 		if n > 0 {
@@ -124,7 +129,7 @@ func password(c *vf.Ctx, n, variant int) []byte {
 func salts(c *vf.Ctx) [][]byte { return c.ValueClasses("salt", 16, c.V()) }
 
 func run(c *vf.Ctx) {
-	c.Rule("A: GenerateFromPassword over pwlen 0..72 x 5 last-byte classes x cost{4,5,6} (+cost<4, 7..9, >31; pwlen>72) vs model string; " +
+	c.Rule("A: GenerateFromPassword over pwlen 0..72 x 8 value classes x cost{4,5,6} (+cost<4, 7..9, >31; pwlen>72) vs model string; " +
 		"B: CompareHashAndPassword over pwlen 0..80 x value classes x minor{a,b,y} x salt classes x candidates{same, each single byte changed, -1 byte, +1 byte of 5 values, pw|0|pw, tail changes beyond 72, len 255..257} vs 72-byte-cyclic-key oracle (+ model on sub-grid); " +
 		"C: 245 embedded libxcrypt hashes + live libxcrypt when reachable; " +
 		"D: all single-byte substitutions/truncations/extensions of valid hashes, all strings of len<=2, all header double substitutions: no panic, success only if model verifies; " +
@@ -138,7 +143,7 @@ func run(c *vf.Ctx) {
 	oldReader := rand.Reader
 	rand.Reader = rr
 	var gens []gen
-	addGen := func(pw []byte, cost, eff int) {
+	addGenV := func(pw []byte, cost, eff int, live bool) {
 		rr.take()
 		var h []byte
 		var err error
@@ -151,11 +156,12 @@ func run(c *vf.Ctx) {
 			c.Violation("bcrypt.GenerateFromPassword fails for a valid password/cost", map[string]any{"pwlen": len(pw), "cost": cost, "err": err.Error()})
 			return
 		}
-		gens = append(gens, gen{pw, cost, eff, h, rr.take()})
+		gens = append(gens, gen{pw, cost, eff, h, rr.take(), live})
 	}
+	addGen := func(pw []byte, cost, eff int) { addGenV(pw, cost, eff, false) }
 	for n := 0; n <= 72; n++ {
-		for v := 0; v < 7; v++ {
-			addGen(password(c, n, v), 4, 4)
+		for v := 0; v < 8; v++ {
+			addGenV(password(c, n, v), 4, 4, v == 7)
 		}
 		addGen(password(c, n, n), 5, 5)
 		addGen(password(c, n, n+1), 6, 6)
@@ -221,9 +227,9 @@ func run(c *vf.Ctx) {
 	// ------------------------------------------------------------------ B: compare matrix
 	type bp struct{ n, v, cost int }
 	var bgrid []bp
-	nvar := 3
+	nvar := 2
 	if c.Thorough {
-		nvar = 7
+		nvar = 8
 	}
 	for n := 0; n <= 80; n++ {
 		for v := 0; v < nvar; v++ {
@@ -238,7 +244,7 @@ func run(c *vf.Ctx) {
 	c.ParallelFor(len(bgrid), func(i int) {
 		g := bgrid[i]
 		pw := password(c, g.n, g.v)
-		if g.v == 2 && g.n >= 2 {
+		if g.v == 1 && g.n >= 2 {
 			pw[g.n/2] = 0 // an embedded NUL
 		}
 		salt := sl[(g.n+g.v)%len(sl)]
@@ -373,6 +379,15 @@ func run(c *vf.Ctx) {
 			if byte(val) == base[f.pos] {
 				continue
 			}
+			// all 256 values everywhere on the first base and in the header of the others;
+			// a 10-value alphabet on the salt/digest positions of the other bases (quick tier)
+			if f.base > 0 && f.pos >= 8 && !c.Thorough {
+				k := strings.IndexByte(bcryptref.Alphabet, base[f.pos])
+				next, prev := bcryptref.Alphabet[(k+1)%64], bcryptref.Alphabet[(k+63)%64]
+				if !bytes.ContainsRune([]byte("\x00\xff$= \n"), rune(val)) && byte(val) != next && byte(val) != prev {
+					continue
+				}
+			}
 			h := []byte(base)
 			h[f.pos] = byte(val)
 			checkMalformed(c, h, pwD, fmt.Sprintf("substitution base %d", f.base))
@@ -472,6 +487,7 @@ type gen struct {
 	eff  int // effective cost
 	h    []byte
 	salt []byte // bytes drawn from rand.Reader
+	live bool   // printable 7-bit password: also handed to libxcrypt
 }
 
 func lastOf(b []byte) []byte {
@@ -499,6 +515,24 @@ func checkMalformed(c *vf.Ctx, h, pw []byte, where string) {
 	}
 	if len(h) < 59 && cerr != bcrypt.ErrHashTooShort {
 		c.Violation("bcrypt.Cost on a hash shorter than 59 bytes does not return ErrHashTooShort", map[string]any{"hex": hex.EncodeToString(h), "err": fmt.Sprint(cerr)})
+	}
+	if len(h) >= 59 {
+		var pe bcrypt.InvalidHashPrefixError
+		var ve bcrypt.HashVersionTooNewError
+		switch {
+		case h[0] != '$' && h[1] > '2':
+			if !errors.As(cerr, &pe) && !errors.As(cerr, &ve) {
+				c.Violation("bcrypt.Cost: wrong prefix and too-new version not reported by the documented error types", map[string]any{"hex": hex.EncodeToString(h), "err": fmt.Sprint(cerr)})
+			}
+		case h[0] != '$':
+			if !errors.As(cerr, &pe) || byte(pe) != h[0] {
+				c.Violation("bcrypt.Cost: hash not starting with '$' does not give InvalidHashPrefixError", map[string]any{"hex": hex.EncodeToString(h), "err": fmt.Sprint(cerr)})
+			}
+		case h[1] > '2':
+			if !errors.As(cerr, &ve) || byte(ve) != h[1] {
+				c.Violation("bcrypt.Cost: major version above '2' does not give HashVersionTooNewError", map[string]any{"hex": hex.EncodeToString(h), "err": fmt.Sprint(cerr)})
+			}
+		}
 	}
 	strict, serr := bcryptref.ParseStrict(string(h))
 	if serr == nil && (cerr != nil || cost != strict.Cost) {
@@ -530,6 +564,10 @@ func checkMalformed(c *vf.Ctx, h, pw []byte, where string) {
 		return
 	}
 	// success on a string outside the strict grammar: justify it or alarm
+	if h[0] != '$' || h[1] > '2' {
+		c.Violation("CompareHashAndPassword succeeds on a hash with a wrong prefix or a newer major version", map[string]any{"hash": string(h), "hex": hex.EncodeToString(h)})
+		return
+	}
 	ok := false
 	kind := ""
 	if cerr == nil && len(h) >= 59 {
@@ -591,13 +629,7 @@ for line in sys.stdin:
 	var reqs []req
 	// direction 1: hashes produced here verify there (crypt(pw, hash) == hash); 7-bit, NUL-free passwords
 	for _, g := range gens {
-		ok := g.eff <= 8
-		for _, b := range g.pw {
-			if b == 0 || b >= 0x80 {
-				ok = false
-			}
-		}
-		if ok {
+		if g.live {
 			reqs = append(reqs, req{PW: hex.EncodeToString(g.pw), Setting: string(g.h), want: string(g.h), pw: g.pw, dir: "here->libxcrypt"})
 		}
 	}
